@@ -105,7 +105,9 @@ func seqJobList(prop, tier string) []*SeqJob {
 	case "C02":
 		return append(c02SeqJobs(tier), metricsPerScopeSweep("C02", "size-sweep-gauges-per-scope", tier, map[string]bool{"gauge": true}), bothReportersJob("C02", tier))
 	case "C03":
-		return c03Jobs(tier)
+		// (a histogram that ends up with another set's bounds files its samples in the wrong buckets: the creation
+		// sequences of C20 - every histogram followed by the sample sweep of C03 - run here too)
+		return append(c03Jobs(tier), borrow("C03", c20Jobs(tier)[1]))
 	case "C06":
 		return c06Jobs(tier)
 	case "C04":
@@ -113,7 +115,9 @@ func seqJobList(prop, tier string) []*SeqJob {
 		// C05, all run against one root, are judged here as well)
 		return append(c04Jobs(tier), tagChainSweep("C04", "size-sweep-tag-chain", tier, false), borrow("C04", c05Jobs(tier)[0]))
 	case "C05":
-		return append(c05Jobs(tier), tagChainSweep("C05", "size-sweep-tag-chain", tier, false))
+		// (programs that share one sanitizing root: a derivation that is handed another identity's scope delivers under
+		// that identity - the C04 job is judged here as well)
+		return append(c05Jobs(tier), tagChainSweep("C05", "size-sweep-tag-chain", tier, false), borrow("C05", c04SharedRootJob(tier)))
 	case "C10":
 		return append(c10Jobs(tier), bothReportersJob("C10", tier))
 	case "C11":
